@@ -55,7 +55,8 @@ def _gen_struct(r, depth, counter, allow_call=True):
         return {'t': 'list', 'items': [_gen_struct(r, depth + 1, counter, allow_call) for _ in range(n)]}
     counter[0] += 1
     n = r.randrange(1, 3)
-    return {'t': 'call', 'tok': f'c{counter[0]}', 'items': [[f'p{i}', _gen_struct(r, depth + 1, counter, False)] for i in range(n)]}
+    # 'bind': the node evaluates to a partial holding the arguments instead of calling the target with them
+    return {'t': 'call', 'tok': f'c{counter[0]}', 'bind': r.random() < 0.35, 'items': [[f'p{i}', _gen_struct(r, depth + 1, counter, False)] for i in range(n)]}
 
 
 def _paths(node, prefix, out, kinds):
@@ -307,7 +308,7 @@ def _to_emit(node, tag):
     if t == 'list':
         return q([_to_emit(v, tag) for v in node['items']])
     if t == 'call':
-        return m([[k, _to_emit(v, tag)] for k, v in node['items']], tag=f'!call:simrec.f_{node["tok"]}')
+        return m([[k, _to_emit(v, tag)] for k, v in node['items']], tag=f'!{"bind" if node.get("bind") else "call"}:simrec.f_{node["tok"]}')
     raise ValueError(t)
 
 
@@ -348,7 +349,7 @@ def _navigate(cfg, path, struct, rec_objs):
     obj = cfg
     for i, c in enumerate(path):
         if node['t'] == 'call':
-            got = rec_objs.get(node['tok'])
+            got = rec_objs.get(node['tok']) if not node.get('bind') else getattr(obj, 'keywords', None)
             if got is None:
                 return None, False
             obj = got
